@@ -72,6 +72,11 @@ class CFG:
                 self.succ[i] = [t["to"]]
             elif k == "switch":
                 tg = [a[1] for a in t["arms"]] + [t["else"]]
+                on = t["on"]
+                if op_place(on) is None and isinstance(on.get("v"), (bool, int)):
+                    # a test of a literal (`if false`, a folded cfg!()): only the matching edge exists
+                    hit = [a[1] for a in t["arms"] if a[0] == int(on["v"])]
+                    tg = hit[:1] if hit else [t["else"]]
                 seen = []
                 for x in tg:
                     if x not in seen:
